@@ -760,3 +760,117 @@ let () =
        | BCorrupt -> "init-corrupt"
        | BCrash -> "init-crash")
     | _ -> "badargs")
+
+(* flimpl <nstreams> { <hexdata|-> <buffered 0/1> <fills|-> <reads|-> <sizes|-> } ... :
+   the implementation-level model of flate.Reader (Flate/Impl.v) over scripted sources; one
+   Reader, Reset between the streams; one observation per Read call *)
+let () =
+  let fmt_bytes (l : n list) : string =
+    let len = List.length l in
+    if len = 0 then "-"
+    else if len <= 48 then hex_of_bytes l
+    else begin
+      let h = ref 0 in
+      List.iter (fun x -> h := (!h * 1000003 + int_of_n x + 1) land (1 lsl 40 - 1)) l;
+      Printf.sprintf "H%d.%d" len !h end in
+  let fmt_obs (o : flobs) : string =
+    match o.fo_err with
+    | Some EPanic -> "Panic"
+    | Some EFuel -> "Fuel"
+    | e -> Printf.sprintf "%s:%s:%s:%s:%d" (fmt_bytes o.fo_bytes) (oerr_name e)
+             (z_to_string o.fo_inOff) (z_to_string o.fo_outOff) (int_of_nat o.fo_srcPos) in
+  register "flimpl" (fun args -> match args with
+    | _ :: rest ->
+      let ints s = if s = "-" then [] else List.map (fun x -> nat_of_int (int_of_string x)) (String.split_on_char ',' s) in
+      let rec go st rest acc = match rest with
+        | hex :: bf :: fills :: reads :: sched :: more ->
+          let data = bytes_of_hex hex in
+          let r = (match st with
+            | None -> fl_new data (bf = "1") (ints fills) (ints reads)
+            | Some s -> fl_reset s data (bf = "1") (ints fills) (ints reads)) in
+          (match r with
+           | Ok s0 ->
+             let (obs, fin) = fl_run s0 (ints sched) in
+             go (Some fin) more (String.concat "," (List.map fmt_obs obs) :: acc)
+           | _ -> List.rev ("InitPanic" :: acc))
+        | _ -> List.rev acc in
+      String.concat "|" (go None rest [])
+    | _ -> "badargs")
+
+(* ---- scripted sinks shared by wbzw / wmetaw ------------------------------------------- *)
+let sink_beh s =
+  if s = "a" then SAccept
+  else match String.split_on_char ':' (String.sub s 1 (String.length s - 1)) with
+    | [k; tag] -> SFail (nat_of_int (int_of_string k), n_of_string tag)
+    | _ -> failwith "sink behaviour"
+let sink_script s = if s = "-" then [] else List.map sink_beh (String.split_on_char ',' s)
+(* accepted sizes of the sink calls made since [seen] calls, oldest first *)
+let fresh_sizes (sink : wsink) (seen : int) : string =
+  let chunks = sink.k_chunks in
+  let fresh = List.length chunks - seen in
+  let rec take n l acc = if n = 0 then acc else match l with [] -> acc | c :: r -> take (n - 1) r (c :: acc) in
+  let sz = List.map (fun c -> string_of_int (List.length c)) (take fresh chunks []) in
+  if sz = [] then "-" else String.concat "+" sz
+
+(* wbzw <level> <sink script> <rest> op... ; op = w:<hex|-> | c | r/<script>/<rest> :
+   implementation-level model of bzip2.Writer (Bzip2/WriterImpl.v) over the bit writer model
+   and a scripted sink. Observation: per call <ret>:<InputOffset>:<OutputOffset>:<bytes
+   accepted by each sink call of this call>, then the contents of every sink. *)
+let () =
+  register "wbzw" (fun args -> match args with
+    | level :: script :: rest :: ops ->
+      let zops = List.map (fun o ->
+        if o = "c" then ZClose
+        else if String.length o >= 2 && o.[0] = 'w' then ZWrite (bytes_of_hex (String.sub o 2 (String.length o - 2)))
+        else match String.split_on_char '/' o with
+          | ["r"; sc; rs] -> ZReset (sink_script sc, sink_beh rs)
+          | _ -> failwith "wbzw op") ops in
+      let obs = zrun_new (n_of_string level) (sink_script script) (sink_beh rest) zops in
+      let en = oerr_name in
+      let seen = ref 0 in
+      let cur = ref { k_script = []; k_rest = SAccept; k_chunks = [] } in
+      let finals = ref [] in
+      let parts = List.map (fun ob ->
+        let head = match ob.o_ret with
+          | ZRWrite (n, e) -> Printf.sprintf "w:%d:%s" (int_of_nat n) (en e)
+          | ZRClose e -> "c:" ^ en e
+          | ZRReset -> finals := wsink_data !cur :: !finals; seen := 0; "r"
+          | ZRPanic -> "panic" in
+        let sz = fresh_sizes ob.o_sink !seen in
+        seen := List.length ob.o_sink.k_chunks;
+        cur := ob.o_sink;
+        Printf.sprintf "%s:%s:%s:%s" head (z_to_string ob.o_in) (z_to_string ob.o_out) sz) obs in
+      finals := wsink_data !cur :: !finals;
+      String.concat "," parts ^ " " ^ String.concat "," (List.rev_map hex_of_bytes !finals)
+    | _ -> "badargs")
+
+(* wmetaw <sink script> <rest> op... ; op = w:<hex|-> | c:<mode> | r/<script>/<rest> :
+   implementation-level model of meta.Writer (Meta/WriterImpl.v). Observation: per call
+   <ret>:<NumBlocks>:<InputOffset>:<OutputOffset>:<accepted sizes>, then every sink. *)
+let () =
+  register "wmetaw" (fun args -> match args with
+    | script :: rest :: ops ->
+      let mops = List.map (fun o ->
+        if String.length o >= 2 && o.[0] = 'w' then MWrite (bytes_of_hex (String.sub o 2 (String.length o - 2)))
+        else if String.length o >= 2 && o.[0] = 'c' then MClose (fmode_of_int (int_of_string (String.sub o 2 (String.length o - 2))))
+        else match String.split_on_char '/' o with
+          | ["r"; sc; rs] -> MReset (sink_script sc, sink_beh rs)
+          | _ -> failwith "wmetaw op") ops in
+      let obs = mrun_new (sink_script script) (sink_beh rest) mops in
+      let en = oerr_name in
+      let seen = ref 0 in
+      let cur = ref { k_script = []; k_rest = SAccept; k_chunks = [] } in
+      let finals = ref [] in
+      let parts = List.map (fun ob ->
+        let head = match ob.mo_ret with
+          | MRWrite (n, e) -> Printf.sprintf "w:%d:%s" (int_of_nat n) (en e)
+          | MRClose e -> "c:" ^ en e
+          | MRReset -> finals := wsink_data !cur :: !finals; seen := 0; "r"
+          | MRPanic -> "panic" in
+        let sz = fresh_sizes ob.mo_sink !seen in
+        seen := List.length ob.mo_sink.k_chunks;
+        cur := ob.mo_sink;
+        Printf.sprintf "%s:%s:%s:%s:%s" head (z_to_string ob.mo_nblocks) (z_to_string ob.mo_in) (z_to_string ob.mo_out) sz) obs in
+      finals := wsink_data !cur :: !finals;
+      String.concat "," parts ^ " " ^ String.concat "," (List.rev_map hex_of_bytes !finals)
+    | _ -> "badargs")
